@@ -10,16 +10,6 @@ ADT_UNFINISHED = "model::builder::UnfinishedModel"
 ADT_BUILDERR = "model::builder::error::ModelBuildError"
 
 
-def pruned(body, block, keep_target):
-    j = dict(body.j)
-    blocks = list(j["blocks"])
-    bb = dict(blocks[block])
-    bb["term"] = {"k": "goto", "t": keep_target}
-    blocks[block] = bb
-    j["blocks"] = blocks
-    return Body(j, body.facts)
-
-
 def entry_match(body):
     """(switch block, {variant: target}) of the first match on self"""
     for bi in body.rpo():
